@@ -43,15 +43,18 @@ def amount(ctx, name, L):
 
 
 def mk_addr(ctx, form, name):
-    """(library value, spec value)"""
+    """(library value, spec value); a form ending in '=' names the same account as the source address (its own anycast part)"""
+    acc_name = name
+    if form.endswith('='):
+        form, acc_name = form[:-1], 'src'
     if form == 'none':
         return None, None
     if form == 'std':
-        wc, acc = ctx.sint(name + '_wc', 8), ctx.bytes_(name + '_acc', 32)
+        wc, acc = ctx.sint(acc_name + '_wc', 8), ctx.bytes_(acc_name + '_acc', 32)
         return Address((wc, acc)), ('std', wc, acc)
     if form.startswith('any'):
         d = int(form[3:])
-        wc, acc, pfx = ctx.sint(name + '_wc', 8), ctx.bytes_(name + '_acc', 32), ctx.uint(name + '_pfx', d)
+        wc, acc, pfx = ctx.sint(acc_name + '_wc', 8), ctx.bytes_(acc_name + '_acc', 32), ctx.uint(name + '_pfx', d)
         a = Address((wc, acc))
         a.set_anycast(d, pfx)
         return a, ('any', d, pfx, wc, acc)
@@ -381,6 +384,10 @@ def instances(tier, seed):
         for init in (('empty', 'special_only') if tier == 'quick' else ('empty', 'special_only', 'depth_only', 'lib_only')):
             for body in (('empty',) if tier == 'quick' else ('empty', 'one', 'fit')):
                 yield 'h_message', dict(kind='int', src=f'any{d}', dest='std', gl=15, extra_n=0, fee_l=15, init=init, body=body, body_refs=0, fsel=d)
+    # a message from an account to itself, the two header addresses differing in their anycast part only
+    for src, dest in (('any5', 'std='), ('std', 'any3='), ('any2', 'any7=')):
+        for body in ('empty', 'fit'):
+            yield 'h_message', dict(kind='int', src=src, dest=dest, gl=1, extra_n=0, fee_l=0, init='none', body=body, body_refs=0, fsel=3)
     for sh in INIT_SHAPES:
         if sh != 'none':
             for fsel in (2, 3, 7, 11):
